@@ -190,6 +190,9 @@ pub struct Drv {
     pub struct_ids: Vec<u32>,
     pub type_ids: Vec<u32>,
     pub constants: Vec<(u32, u32, u32)>, // (id, type, value)
+    /// arguments of recent calls by method name (near-repeat lane: the same request again, or the same
+    /// request with exactly one operand changed / one optional operand toggled)
+    pub recent_calls: Vec<(&'static str, Option<u32>, Vec<crate::producer::Group>)>,
 }
 
 impl Drv {
@@ -209,6 +212,7 @@ impl Drv {
             struct_ids: vec![],
             type_ids: vec![],
             constants: vec![],
+            recent_calls: vec![],
         };
         // a few ids nothing defines: used as switch selectors and as "unknown" result types
         for _ in 0..3 {
@@ -512,6 +516,7 @@ impl Drv {
                             groups[0].items[0][0] = MOp::W(s.k_idref, set);
                         }
                         self.bias_arguments(bind.name, *arg_seed, &mut want, &mut groups);
+                        self.near_repeat(bind.name, *arg_seed, &mut want, &mut groups);
                         let has_rid = s.inst(bind.opcode).map(|gi| gi.operands.iter().any(|(k, _)| s.cat(*k) == crate::snapshot::Cat::IdResult)).unwrap_or(false);
                         let rid_explicit = if bind.has_result_id_param && *explicit_rid { Some(self.fresh_untracked()) } else { None };
                         want.rid = if has_rid { rid_explicit } else { None };
@@ -720,6 +725,90 @@ impl Drv {
         }
         if touched {
             want.ops = groups.iter().flat_map(|g| g.items.iter().flatten().cloned()).collect();
+        }
+    }
+
+    /// Near-repeat lane: a third of the calls of a method that was called before re-issue the remembered
+    /// request, identical or with exactly one operand changed (another enumerant, another id, literal +-1,
+    /// an optional operand added / removed, a variadic operand appended / dropped).  Deduplication, "same
+    /// request" and "differs in one operand" conjunctions become common instead of astronomically rare.
+    fn near_repeat(&mut self, name: &'static str, seed: u64, want: &mut MInst, groups: &mut Vec<crate::producer::Group>) {
+        use crate::snapshot::{Cat, Quant};
+        let s = snap();
+        let remembered: Vec<usize> = self.recent_calls.iter().enumerate().filter(|(_, (n, _, _))| *n == name).map(|(i, _)| i).collect();
+        if seed % 3 == 1 && !remembered.is_empty() {
+            // sub-choices from a mix of the seed (argument seeds are often tiny numbers)
+            let hsh = (seed ^ 0x5bd1_e995).wrapping_mul(0x9E37_79B9_7F4A_7C15) >> 7;
+            let (_, rtype, gs) = self.recent_calls[remembered[(hsh >> 40) as usize % remembered.len()]].clone();
+            *groups = gs;
+            want.rtype = rtype;
+            let mode = hsh % 4;
+            let seed = hsh >> 2;
+            // instructions with context-dependent literals keep their arguments: another selector / type id would
+            // change literal widths, which is the caller's obligation (C06 quantifies over well-formed requests)
+            let ctx_dependent = groups.iter().any(|g| matches!(s.cat(g.kind), Cat::LitCtx | Cat::PairLitId | Cat::LitSpecOp));
+            if mode != 0 && !groups.is_empty() && !ctx_dependent {
+                // prefer an optional / variadic group when mode == 1
+                let cand: Vec<usize> = (0..groups.len()).filter(|i| mode != 1 || groups[*i].quant != Quant::One).collect();
+                let gi = if cand.is_empty() { (seed / 11) as usize % groups.len() } else { cand[(seed / 11) as usize % cand.len()] };
+                let k = groups[gi].kind;
+                let simple_item = |sd: u64, me: &Drv| -> Option<Vec<MOp>> {
+                    match s.cat(k) {
+                        Cat::ValueEnum => {
+                            let nums: Vec<u32> = s.enums[&k].numbers.iter().copied().filter(|n| s.params_of(k, *n).is_empty()).collect();
+                            if nums.is_empty() { None } else { Some(vec![MOp::W(k, nums[sd as usize % nums.len().min(4 + (sd % 7) as usize)])]) }
+                        }
+                        Cat::Id => {
+                            let pool = if me.type_ids.is_empty() { &me.all_ids } else { &me.type_ids };
+                            if pool.is_empty() { None } else { Some(vec![MOp::W(k, pool[sd as usize % pool.len()])]) }
+                        }
+                        Cat::LitInt => Some(vec![MOp::W(s.k_lit32, (sd % 3) as u32)]),
+                        _ => None,
+                    }
+                };
+                let gq = groups[gi].quant;
+                let g = &mut groups[gi];
+                match gq {
+                    Quant::One => {
+                        if let Some(item) = g.items.first_mut() {
+                            match item.first().cloned() {
+                                Some(MOp::W(kk, v)) if s.cat(kk) == Cat::LitInt => item[0] = MOp::W(kk, if seed % 2 == 0 { v.wrapping_add(1) } else { v ^ 1 }),
+                                Some(MOp::W(..)) => {
+                                    if let Some(ni) = simple_item(seed / 13, self) {
+                                        *item = ni;
+                                    }
+                                }
+                                _ => {}
+                            }
+                        }
+                    }
+                    _ => {
+                        if g.items.is_empty() || (g.quant == Quant::ZeroOrMore && seed % 2 == 0) {
+                            // an operand may only be added if every earlier optional operand is present and nothing follows
+                            let earlier_present = groups[..gi].iter().all(|e| e.quant == Quant::One || !e.items.is_empty());
+                            let later_absent = groups[gi + 1..].iter().all(|e| e.items.is_empty());
+                            if earlier_present && later_absent {
+                                if let Some(ni) = simple_item(seed / 13, self) {
+                                    groups[gi].items.push(ni);
+                                }
+                            }
+                        } else {
+                            groups[gi].items.pop();
+                            if groups[gi].items.is_empty() {
+                                // absent optional operand: everything after it is absent too
+                                for e in groups[gi + 1..].iter_mut() {
+                                    e.items.clear();
+                                }
+                            }
+                        }
+                    }
+                }
+            }
+            want.ops = groups.iter().flat_map(|g| g.items.iter().flatten().cloned()).collect();
+        }
+        self.recent_calls.push((name, want.rtype, groups.clone()));
+        if self.recent_calls.len() > 12 {
+            self.recent_calls.remove(0);
         }
     }
 
